@@ -15,7 +15,7 @@ from .graphtage import BuildOptions, Filetype, KeyValuePairNode, LeafNode, ListN
     StringEdit, StringFormatter
 from .printer import Fore, Printer
 from .sequences import SequenceFormatter, SequenceNode
-from .tree import ContainerNode, Edit, GraphtageFormatter, TreeNode
+from .tree import ContainerNode, Edit, EditedTreeNode, GraphtageFormatter, TreeNode
 
 
 def build_tree(path: str, options: Optional[BuildOptions] = None, *args, **kwargs) -> TreeNode:
@@ -41,9 +41,13 @@ class YAMLListFormatter(SequenceFormatter):
     def print_SequenceNode(self, printer: Printer, node: SequenceNode):
         self.parent.print(printer, node)
 
-    def print_ListNode(self, printer: Printer, *args, **kwargs):
+    def print_ListNode(self, printer: Printer, node: ListNode, *args, **kwargs):
+        if len(node) == 0 and not (isinstance(node, EditedTreeNode) and node.inserted):
+            # an empty block sequence would print as nothing, and nothing parses back as null
+            printer.write('[]')
+            return
         printer.newline()
-        super().print_SequenceNode(printer, *args, **kwargs)
+        super().print_SequenceNode(printer, node, *args, **kwargs)
 
     def edit_print(self, printer: Printer, edit: Edit):
         printer.indents += 1
@@ -93,8 +97,12 @@ class YAMLDictFormatter(SequenceFormatter):
     def print_MultiSetNode(self, *args, **kwargs):
         super().print_SequenceNode(*args, **kwargs)
 
-    def print_MappingNode(self, *args, **kwargs):
-        super().print_SequenceNode(*args, **kwargs)
+    def print_MappingNode(self, printer: Printer, node: MappingNode, *args, **kwargs):
+        if len(node) == 0 and not (isinstance(node, EditedTreeNode) and node.inserted):
+            # an empty block mapping would print as nothing, and nothing parses back as null
+            printer.write('{}')
+            return
+        super().print_SequenceNode(printer, node, *args, **kwargs)
 
     def print_SequenceNode(self, *args, **kwargs):
         self.parent.print(*args, **kwargs)
